@@ -107,9 +107,15 @@ def check_slots(ctx, rep, f, rule='R-SLOT'):
         found += 1
         # fill sites: C[i].add(..) / C[i] = ..
         fills = []
+        slot_alias = {n.targets[0].id for n in walk_no_nested(f.node) if isinstance(n, ast.Assign) and len(n.targets) == 1 and isinstance(n.targets[0], ast.Name)
+                      and isinstance(n.value, ast.Subscript) and u(n.value.value) == C}
         for n in walk_no_nested(f.node):
             if isinstance(n, ast.Expr) and isinstance(n.value, ast.Call) and isinstance(n.value.func, ast.Attribute) and n.value.func.attr in ('add', 'update', 'append') \
                     and isinstance(n.value.func.value, ast.Subscript) and u(n.value.func.value.value) == C:
+                fills.append(n)
+            # block = C[i]; block.add(..)
+            if isinstance(n, ast.Expr) and isinstance(n.value, ast.Call) and isinstance(n.value.func, ast.Attribute) and n.value.func.attr in ('add', 'update', 'append') \
+                    and isinstance(n.value.func.value, ast.Name) and n.value.func.value.id in slot_alias:
                 fills.append(n)
             if isinstance(n, ast.Assign) and isinstance(n.targets[0], ast.Subscript) and u(n.targets[0].value) == C:
                 fills.append(n)
